@@ -324,8 +324,7 @@ func (c14) Eval(c *Case) (*Violation, bool) {
 			if i == 1 {
 				sp.Sched = RandSched(r)
 			}
-			sp.MaxTasks = 400
-			sp.MaxSteps = 8000
+			sp.MaxTasks = 400 // unbounded spawning is what a cycle looks like; steps keep the default budget
 			o := Run(sp)
 			if v := cleanEnd(o, c.Cmd, c.Args, must, "include graph: "+what); v != nil {
 				v.Signature += ":include-" + c.Note
